@@ -11,9 +11,10 @@ with bounds check; `lcp_container_source_exact` of Thm/C03.lean says that the tr
 
 * `for1_spec`   — the first loop builds the **inverse permutation**: `rank[pos[i]] = i` for a duplicate-free `pos`.
 * `while1_eq`   — the `while` loop is the model's `extend` (no overflow of `pred + l`, `p + l`; fuel `n + 1` suffices).
-* `for2_eq`     — the main loop is `kasaiGo` (`r - 1` does not underflow, `pos[r - 1]`, `lcp.set(r, …)` in range,
-                  `l as isize` exact).
-* `lcp_eq_model`, `lcp_source_exact` (with `Kasai.kasai_eq_lcpRef`: = `lcpRef` on every sorted suffix permutation).
+* `for2_sorted`, `lcp_source_exact` — model-free: on a sorted suffix permutation the main loop writes `lcpOf p` at `rank[p]`
+  for every carried `l ≤ lcpOf p`; result `= lcpRef` (hard obligation).
+* the step-by-step equality with the mirror model `Kasai.kasaiGo` (`for2_eq`, `lcp_eq_model`: any permutation starting with
+  `n - 1`, sorted or not) is the **soft** module `Thm/GenSrcLcpModel.lean`.
 Hypotheses = what keeps the code from panicking: `pos` is a permutation of the positions whose first entry is `n - 1`
 (`rank[p] ≥ 1` for the positions the loop visits), `n ≥ 1` (`take(n - 1)`), `n + 1 < 2^63`.
 -/
@@ -123,63 +124,116 @@ theorem for1_spec : ∀ (xs : List Nat) (k : Nat) (rank : List Nat), (∀ x ∈ 
         rw [h4 hnd'.2 i (by simpa using hi)]
         congr 1; omega
 
-/-- hypotheses on one iteration of the main loop: `rank[p] ≥ 1` (no underflow of `r - 1`), the predecessor is a position -/
-def IterOk (t sa : List Nat) (p : Nat) : Prop :=
-  p < t.length ∧ 1 ≤ sa.idxOf p ∧ sa.idxOf p < t.length ∧ sa.getD (sa.idxOf p - 1) 0 < t.length
-
 theorem toSigned_small {l : Nat} (h : l < 2 ^ 63) : Rs.toSigned 64 l = (l : Int) := Rs.toSigned_of_lt (by simpa using h)
 
-/-- main loop = the model's `kasaiGo` -/
-theorem for2_eq (t sa : List Nat) (hlen : sa.length = t.length) (hsz : t.length + 1 < 2 ^ 63) :
-    ∀ (ps : List Nat) (l : Nat) (lcp : List Int), (∀ p ∈ ps, IterOk t sa p) → l ≤ t.length → lcp.length = t.length + 1 →
-      ∃ l', SrcLcp.lcp_for2 t sa t.length (ps.map (fun p => (sa.idxOf p, p))) (l, lcp) =
-        Res.ok (l', kasaiGo t sa ps l lcp) := by
-  intro ps
-  have q := p63
-  induction ps with
-  | nil => intro l lcp _ _ _; exact ⟨l, by simp [SrcLcp.lcp_for2, kasaiGo]⟩
-  | cons p ps ih =>
-    intro l lcp hps hl hlcp
-    obtain ⟨hp, hr1, hrn, hpred⟩ := hps p (by simp)
-    have e1 : Rs.sub (sa.idxOf p) 1 = Res.ok (sa.idxOf p - 1) := Rs.sub_ok hr1
-    have e2 : Rs.idx sa (sa.idxOf p - 1) = Res.ok (sa.getD (sa.idxOf p - 1) 0) := idx_getD sa _ 0 (by omega)
-    have e3 := while1_eq t p (sa.getD (sa.idxOf p - 1) 0) (by omega) (by omega) (by omega) t.length l hl (by omega)
-    -- (kept although the helper's parameters are now ordered by declaration: the roles of `p` and `pred` are symmetric)
-    have e3' := while1_eq t (sa.getD (sa.idxOf p - 1) 0) p (by omega) (by omega) (by omega) t.length l hl (by omega)
-    rw [extend_comm] at e3'
-    have hle := extend_le t p (sa.getD (sa.idxOf p - 1) 0) t.length l hl
-    generalize hE : extend t p (sa.getD (sa.idxOf p - 1) 0) t.length l = l' at e3 e3' hle
-    have e4 : Rs.toSigned 64 l' = (l' : Int) := toSigned_small (by omega)
-    have e5 : Rs.setIdx lcp (sa.idxOf p) (l' : Int) = Res.ok (lcp.set (sa.idxOf p) (l' : Int)) := Rs.setIdx_ok (by omega)
-    obtain ⟨l'', h⟩ := ih (l' - 1) (lcp.set (sa.idxOf p) (l' : Int)) (fun x hx => hps x (List.mem_cons_of_mem _ hx))
-      (by omega) (by rw [List.length_set]; exact hlcp)
-    refine ⟨l'', ?_⟩
-    by_cases h0 : l' > 0
-    · have e6 : Rs.sub l' 1 = Res.ok (l' - 1) := Rs.sub_ok (by omega)
-      have h0' : 0 < l' := h0
-      have h0'' : l' ≠ 0 := by omega
-      simp [-List.getD_eq_getElem?_getD, SrcLcp.lcp_for2, kasaiGo, e1, e2, e3, e3', e4, e5, e6, h0, h0', h0'', h, hE]
-    · have h00 : l' = 0 := by omega
-      subst h00
-      have h' : SrcLcp.lcp_for2 t sa t.length (ps.map (fun p => (sa.idxOf p, p))) (0, lcp.set (sa.idxOf p) 0) =
-          Res.ok (l'', kasaiGo t sa ps 0 (lcp.set (sa.idxOf p) 0)) := by simpa using h
-      have e5' : Rs.setIdx lcp (sa.idxOf p) 0 = Res.ok (lcp.set (sa.idxOf p) 0) := by simpa using e5
-      simp [-List.getD_eq_getElem?_getD, SrcLcp.lcp_for2, kasaiGo, e1, e2, e3, e3', e4, e5', hE, h']
+theorem lcp_length_mismatch_panics (t sa : List Nat) (h : t.length ≠ sa.length) : SrcLcp.lcp t sa = Res.panic := by
+  have e3 : Rs.assert (t.length == sa.length) = Res.panic := by simp [Rs.assert, h]
+  unfold SrcLcp.lcp
+  simp [e3]
 
-/-- **translated `lcp` = mirror model `Kasai.kasai`** for every permutation `sa` of the positions of a non-empty text that
-starts with `n - 1` (what keeps `rank[p] - 1` from underflowing); `n + 1 < 2^63` (`l as isize`). -/
-theorem lcp_eq_model (t sa : List Nat) (hperm : sa.Perm (List.range t.length)) (hhead : sa.head? = some (t.length - 1))
-    (hn : 0 < t.length) (hsz : t.length + 1 < 2 ^ 63) :
-    SrcLcp.lcp t sa = Res.ok (kasai t sa) := by
+/-! ### model-free: on a **sorted** suffix permutation the loop writes the true LCP values whatever `l ≤ lcpOf p` it carries
+
+`for2_sorted` relates the translated loop started with `l` to the model started with any `l₀`, both `≤ lcpOf p`: the `while`
+extends either to `lcpOf p`, which is what gets written; the value carried on only has to stay `≤ lcpOf (p + 1)` — true for
+`lcpOf p − 1` (Kasai's inequality) and for `0` (a rewrite that restarts every extension from `l = 0`).  `lcp_source_exact`
+is proved from it, not from `lcp_eq_model`. -/
+
+theorem extend_lcpOf (t sa : List Nat) (p l : Nat) (hp : p < t.length) (hl : l ≤ lcpOf t sa p) :
+    extend t p (sa.getD (sa.idxOf p - 1) 0) t.length l = lcpOf t sa p := by
+  rw [extend_eq t p _ t.length l (by omega)]
+  unfold lcpOf at hl ⊢
+  have := cpl_add _ _ l hl
+  rw [List.drop_drop, List.drop_drop] at this
+  omega
+
+theorem for2_sorted (t sa : List Nat) (h : Sorted t sa) (hn : 0 < t.length) (hsz : t.length + 1 < 2 ^ 63) :
+    ∀ (d p l l₀ : Nat) (lcp : List Int), p + d = t.length - 1 →
+      (d = 0 ∨ (l ≤ lcpOf t sa p ∧ l₀ ≤ lcpOf t sa p)) → l ≤ t.length → lcp.length = t.length + 1 →
+      ∃ l', SrcLcp.lcp_for2 t sa t.length ((List.range' p d).map (fun p => (sa.idxOf p, p))) (l, lcp) =
+        Res.ok (l', kasaiGo t sa (List.range' p d) l₀ lcp) := by
+  intro d
   have q := p63
-  have hlen : sa.length = t.length := by simpa using hperm.length_eq
-  have hnd : sa.Nodup := (hperm.nodup_iff).mpr List.nodup_range
+  have hlen := h.length
+  induction d with
+  | zero => intro p l l₀ lcp _ _ _ _; exact ⟨l, by simp [SrcLcp.lcp_for2, kasaiGo]⟩
+  | succ d ih =>
+    intro p l l₀ lcp hpd hl hln hlcp
+    obtain ⟨hl1, hl2⟩ : l ≤ lcpOf t sa p ∧ l₀ ≤ lcpOf t sa p := by
+      rcases hl with h0 | h0
+      · omega
+      · exact h0
+    have hpn : p < t.length := by omega
+    have rp := h.rank_lt p hpn
+    rw [hlen] at rp
+    have rpos : 0 < sa.idxOf p := by
+      apply Nat.pos_of_ne_zero
+      intro hz
+      have e1 := h.getD_rank p hpn
+      have e2 := h.getD_rank (t.length - 1) (by omega)
+      rw [h.rank_last hn] at e2
+      rw [hz, e2] at e1
+      omega
+    have hpred : sa.getD (sa.idxOf p - 1) 0 < t.length := h.getD_lt _ (by omega)
+    have hL : lcpOf t sa p ≤ t.length := by
+      have := extend_le t p (sa.getD (sa.idxOf p - 1) 0) t.length l hln
+      rw [extend_lcpOf t sa p l hpn hl1] at this; exact this
+    have e1 : Rs.sub (sa.idxOf p) 1 = Res.ok (sa.idxOf p - 1) := Rs.sub_ok rpos
+    have e2 : Rs.idx sa (sa.idxOf p - 1) = Res.ok (sa.getD (sa.idxOf p - 1) 0) := idx_getD sa _ 0 (by omega)
+    have e3 := while1_eq t p (sa.getD (sa.idxOf p - 1) 0) (by omega) (by omega) (by omega) t.length l hln (by omega)
+    have e3' := while1_eq t (sa.getD (sa.idxOf p - 1) 0) p (by omega) (by omega) (by omega) t.length l hln (by omega)
+    rw [extend_comm] at e3'
+    rw [extend_lcpOf t sa p l hpn hl1] at e3 e3'
+    have e4 : Rs.toSigned 64 (lcpOf t sa p) = (lcpOf t sa p : Int) := toSigned_small (by omega)
+    have e5 : Rs.setIdx lcp (sa.idxOf p) (lcpOf t sa p : Int) = Res.ok (lcp.set (sa.idxOf p) (lcpOf t sa p : Int)) :=
+      Rs.setIdx_ok (by omega)
+    have hnext : d = 0 ∨ lcpOf t sa p - 1 ≤ lcpOf t sa (p + 1) := by
+      by_cases hd : d = 0
+      · exact Or.inl hd
+      · exact Or.inr (kasai_ineq t sa h p (by omega) rpos)
+    have hlen' : (lcp.set (sa.idxOf p) (lcpOf t sa p : Int)).length = t.length + 1 := by rw [List.length_set]; exact hlcp
+    -- the value carried on: `lcpOf p − 1` (pinned text) or `0` (restart) — both stay below the next true value
+    obtain ⟨lA, hA⟩ := ih (p + 1) (lcpOf t sa p - 1) (lcpOf t sa p - 1) (lcp.set (sa.idxOf p) (lcpOf t sa p : Int))
+      (by omega) (by rcases hnext with h0 | h0; exact Or.inl h0; exact Or.inr ⟨h0, h0⟩) (by omega) hlen'
+    obtain ⟨lB, hB⟩ := ih (p + 1) 0 (lcpOf t sa p - 1) (lcp.set (sa.idxOf p) (lcpOf t sa p : Int))
+      (by omega) (by rcases hnext with h0 | h0; exact Or.inl h0; exact Or.inr ⟨Nat.zero_le _, h0⟩) (by omega) hlen'
+    have hmodel : kasaiGo t sa (List.range' p (d + 1)) l₀ lcp =
+        kasaiGo t sa (List.range' (p + 1) d) (lcpOf t sa p - 1) (lcp.set (sa.idxOf p) (lcpOf t sa p : Int)) := by
+      rw [List.range'_succ]
+      simp only [kasaiGo]
+      rw [extend_lcpOf t sa p l₀ hpn hl2]
+    rw [hmodel, List.range'_succ, List.map_cons, SrcLcp.lcp_for2]
+    by_cases h0 : lcpOf t sa p > 0
+    · have e6 : Rs.sub (lcpOf t sa p) 1 = Res.ok (lcpOf t sa p - 1) := Rs.sub_ok (by omega)
+      have h0' : 0 < lcpOf t sa p := h0
+      have h0'' : lcpOf t sa p ≠ 0 := by omega
+      first
+      | (refine ⟨lA, ?_⟩
+         simp [-List.getD_eq_getElem?_getD, e1, e2, e3, e3', e4, e5, e6, h0, h0', h0'', hA]
+         done)
+      | (refine ⟨lB, ?_⟩
+         simp [-List.getD_eq_getElem?_getD, e1, e2, e3, e3', e4, e5, e6, h0, h0', h0'', hB])
+    · have h00 : lcpOf t sa p = 0 := by omega
+      rw [h00] at e3 e3' e4 e5 hA hB ⊢
+      have e5' : Rs.setIdx lcp (sa.idxOf p) 0 = Res.ok (lcp.set (sa.idxOf p) 0) := by simpa using e5
+      have hB' : SrcLcp.lcp_for2 t sa t.length ((List.range' (p + 1) d).map (fun p => (sa.idxOf p, p)))
+          (0, lcp.set (sa.idxOf p) 0) = Res.ok (lB, kasaiGo t sa (List.range' (p + 1) d) (0 - 1) (lcp.set (sa.idxOf p) 0)) := by
+        simpa using hB
+      refine ⟨lB, ?_⟩
+      simp [-List.getD_eq_getElem?_getD, e1, e2, e3, e3', e4, e5', hB']
+
+/-- **the translated `lcp`, run on a sorted suffix permutation that starts with `n - 1`, returns the LCP array** — proved
+from the loop invariant `l ≤ lcpOf p` on the true LCP values (`for2_sorted`), not through the equality with `kasaiGo` -/
+theorem lcp_source_exact (t sa : List Nat) (h : Sorted t sa) (hn : 0 < t.length) (hsz : t.length + 1 < 2 ^ 63) :
+    SrcLcp.lcp t sa = Res.ok (lcpRef t sa) := by
+  have q := p63
+  have hperm := h.perm
+  have hlen : sa.length = t.length := h.length
+  have hnd : sa.Nodup := h.nodup
   have hmem : ∀ x, x ∈ sa ↔ x < t.length := by intro x; rw [hperm.mem_iff, List.mem_range]
   obtain ⟨rank, h1, h2, _, h4⟩ := for1_spec sa 0 (List.replicate t.length 0) (by
     intro x hx; rw [List.length_replicate]; exact (hmem x).mp hx)
   have h4' := h4 hnd
   rw [List.length_replicate] at h2
-  -- the rank vector is the inverse permutation
   have hrank : ∀ p, p < t.length → rank[p]? = some (sa.idxOf p) := by
     intro p hp
     have hi : sa.idxOf p < sa.length := List.idxOf_lt_length_iff.mpr ((hmem p).mpr hp)
@@ -193,44 +247,19 @@ theorem lcp_eq_model (t sa : List Nat) (hperm : sa.Perm (List.range t.length)) (
     · rw [List.getElem?_take_of_lt hi]
       simp [hrank i (by omega), hi]
     · rw [List.getElem?_take_eq_none (by omega), List.getElem?_eq_none (by simp; omega)]
-  -- every iteration is safe
-  have hhead0 : sa.idxOf (t.length - 1) = 0 := by
-    cases sa with
-    | nil => simp at hhead
-    | cons a l => simp at hhead; subst hhead; simp
-  have hiter : ∀ p ∈ List.range (t.length - 1), IterOk t sa p := by
-    intro p hp
-    rw [List.mem_range] at hp
-    have hi : sa.idxOf p < sa.length := List.idxOf_lt_length_iff.mpr ((hmem p).mpr (by omega))
-    refine ⟨by omega, ?_, by omega, ?_⟩
-    · apply Nat.pos_of_ne_zero
-      intro hz
-      have e1 : sa[sa.idxOf p]'hi = p := List.getElem_idxOf hi
-      have hi0 : sa.idxOf (t.length - 1) < sa.length := by omega
-      have e2 : sa[sa.idxOf (t.length - 1)]'hi0 = t.length - 1 := List.getElem_idxOf hi0
-      simp only [hz, hhead0] at e1 e2
-      omega
-    · have hj : sa.idxOf p - 1 < sa.length := by omega
-      rw [getD_of_lt sa _ 0 hj]
-      exact (hmem _).mp (List.getElem_mem hj)
-  obtain ⟨l', h5⟩ := for2_eq t sa hlen hsz (List.range (t.length - 1)) 0 (List.replicate (t.length + 1) (-1)) hiter
-    (by omega) (by simp)
+  obtain ⟨l', h5⟩ := for2_sorted t sa h hn hsz (t.length - 1) 0 0 0 (List.replicate (t.length + 1) (-1)) (by omega)
+    (by by_cases hd : t.length - 1 = 0
+        · exact Or.inl hd
+        · exact Or.inr ⟨Nat.zero_le _, Nat.zero_le _⟩) (by omega) (by simp)
+  have hk : kasaiGo t sa (List.range' 0 (t.length - 1)) 0 (List.replicate (t.length + 1) (-1)) = lcpRef t sa := by
+    rw [← kasai_eq_lcpRef t sa h hn]; unfold kasai; rw [List.range_eq_range']
+  rw [hk, ← List.range_eq_range'] at h5
   have e1 : Rs.add 64 t.length 1 = Res.ok (t.length + 1) := Rs.add_ok (by omega)
   have e1' : Rs.add 64 1 t.length = Res.ok (t.length + 1) := by rw [Nat.add_comm]; exact Rs.add_ok (by omega)
   have e2 : Rs.sub t.length 1 = Res.ok (t.length - 1) := Rs.sub_ok (by omega)
   have e3 : Rs.assert (t.length == sa.length) = Res.ok () := Rs.assert_ok (by simp [hlen])
   have e3' : Rs.assert (sa.length == t.length) = Res.ok () := Rs.assert_ok (by simp [hlen])
-  unfold SrcLcp.lcp kasai
-  simp [e1, e1', e2, e3, e3', h1, hsrc, h5]
-
-theorem lcp_length_mismatch_panics (t sa : List Nat) (h : t.length ≠ sa.length) : SrcLcp.lcp t sa = Res.panic := by
-  have e3 : Rs.assert (t.length == sa.length) = Res.panic := by simp [Rs.assert, h]
   unfold SrcLcp.lcp
-  simp [e3]
-
-/-- **the translated `lcp`, run on a sorted suffix permutation that starts with `n - 1`, returns the LCP array** -/
-theorem lcp_source_exact (t sa : List Nat) (h : Sorted t sa) (hn : 0 < t.length) (hsz : t.length + 1 < 2 ^ 63) :
-    SrcLcp.lcp t sa = Res.ok (lcpRef t sa) := by
-  rw [lcp_eq_model t sa h.perm h.head hn hsz, kasai_eq_lcpRef t sa h hn]
+  simp [e1, e1', e2, e3, e3', h1, hsrc, h5]
 
 end RbV.Thm.GenSrcLcp
